@@ -594,7 +594,10 @@ def pick_config(ctx, max_cells):
     kind = rng.choice(KINDS)
     threads = rng.choice([1, 2, 4, 8])
     box = rng.choice([(1., 1., 1.), (1., 1., 1.), (2., 1., 0.5), (1., 3., 1.)])
-    return dict(layout=layout, cells=cells, per=per, g=g, kind=kind, threads=threads, box=box)
+    # the code's default CFL factor (0.2), close to the stability limit, and deliberately overdriven steps: conservation
+    # holds for every dt as long as no clamp fires, and the clamps must keep the state non-negative for every dt
+    cfl = rng.choice([None] * 6 + [0.9, 2.5, 6.0])
+    return dict(layout=layout, cells=cells, per=per, g=g, kind=kind, threads=threads, box=box, cfl=cfl)
 
 
 def python_grid_faces(ncell, per):
@@ -643,7 +646,7 @@ def check_run(ctx, cfg, res, model, stream):
     rep = dict(cfg, param=res.get("param", ""), states=[[list(k), list(v[:2]) + [list(v[2])]] for k, v in sorted(cfg["states"].items())],
                cmd="CMacIonize --params run.param --task-based-rhd --number-of-steps %d --threads %d (CMAC_VERIF_FACELOG=1 CMAC_VERIF_STATEDUMP=1)" % (cfg.get("steps", 1), cfg["threads"]))
     rep.pop("kind_states", None)
-    tag = "layout %s cells/subgrid %s periodic %s gamma %.4g %s threads %d" % (layout, cells, per, g, cfg["kind"], cfg["threads"])
+    tag = "layout %s cells/subgrid %s periodic %s gamma %.4g %s threads %d%s" % (layout, cells, per, g, cfg["kind"], cfg["threads"], "" if cfg.get("cfl") is None else " CFL %g" % cfg["cfl"])
     if res["timed_out"]:
         ctx.violation("run:timeout", "hydro run did not finish: " + tag, rep)
         return None
@@ -715,6 +718,8 @@ def check_run(ctx, cfg, res, model, stream):
             st["oracle_failures"] += 1
             ctx.violation("totals:" + key, "%s (step %d, %s, wall Mach %.2f)" % (text, si, tag, wm), rep)
         for key, text in physical_oracle(t1):
+            if key == "not-finite" and (cfg.get("cfl") or 0) > 1:
+                continue        # finiteness is only claimed for time steps within the stability limit
             st["oracle_failures"] += 1
             ctx.violation("state:" + key, "%s (step %d, %s)" % (text, si, tag), rep)
         # ---- the hook's totals against exact sums of the dump (validates the hook)
@@ -740,9 +745,10 @@ def do_runs(ctx, nruns, max_cells, steps_choices=(1, 2, 3)):
         ncell = [cfg["layout"][a] * cfg["cells"][a] for a in range(3)]
         cfg["states"] = initial_state(ctx.rng, ncell, cfg["kind"], cfg["g"], cfg["per"])
         cfg["steps"] = ctx.rng.choice(steps_choices)
-        res = run_hydro(binary, cfg["layout"], cfg["per"], cfg["cells"], cfg["g"], cfg["states"], cfg["threads"], steps=cfg["steps"], box=cfg["box"])
+        res = run_hydro(binary, cfg["layout"], cfg["per"], cfg["cells"], cfg["g"], cfg["states"], cfg["threads"], steps=cfg["steps"], box=cfg["box"], cfl=cfg["cfl"])
         model = model_lists(drv, cfg["layout"], cfg["per"], cfg["cells"])
         ctx.count()
+        ctx.branch("cfl-default" if cfg["cfl"] is None else ("cfl-0.9" if cfg["cfl"] < 1 else "cfl-overdriven"))
         ctx.distinct((cfg["layout"], cfg["cells"], cfg["per"], cfg["kind"], cfg["threads"]), nontrivial=(cfg["layout"] != (1, 1, 1)))
         ctx.branch("init-" + cfg["kind"])
         ctx.branch("threads-%d" % cfg["threads"])
@@ -773,7 +779,7 @@ def run(ctx):
     ctx.cov["rule"] = ("cell level: generated state pairs (smooth / jump / identical / vacuum / near-vacuum / ties, limiter-firing cells, 28 decades of density) through "
                        "Hydro::limit, do_flux_calculation, do_ghost_flux_calculation, do_(ghost_)gradient_calculation, update_conserved_variables, set_primitive_variables vs the Float model; "
                        "runs: real pure-hydro steps of the hooked binary on random layouts (1..3 subgrids/axis, 2..6 cells/subgrid, periodic / reflective / mixed, 1/2/4/8 threads, "
-                       "smooth / jump / blast / near-vacuum / random / supersonic initial states): per-call log vs the Lean sweep lists, faces-exactly-once, totals, non-negativity, finiteness; "
+                       "smooth / jump / blast / near-vacuum / random / supersonic initial states, CFL factor 0.2 (default), 0.9 and overdriven 2.5 / 6 to make the positivity clamps fire): per-call log vs the Lean sweep lists, faces-exactly-once, totals, non-negativity, finiteness; "
                        "distinct = (layout, cells, periodicity, kind, threads); non-trivial = more than one subgrid")
     if not ok:
         return
@@ -811,7 +817,7 @@ def replay(ctx, path):
     cfg["states"] = {tuple(k): (v[0], v[1], v[2]) for k, v in obj["states"]}
     binary = vlib.full_binary()
     vlib.lake_build(["drv_c04"])
-    res = run_hydro(binary, cfg["layout"], cfg["per"], cfg["cells"], cfg["g"], cfg["states"], cfg["threads"], steps=cfg.get("steps", 1), box=cfg["box"])
+    res = run_hydro(binary, cfg["layout"], cfg["per"], cfg["cells"], cfg["g"], cfg["states"], cfg["threads"], steps=cfg.get("steps", 1), box=cfg["box"], cfl=cfg.get("cfl"))
     model = model_lists(vlib.driver("drv_c04"), cfg["layout"], cfg["per"], cfg["cells"])
     before = len(ctx.violations)
     check_run(ctx, cfg, res, model, "replay")
